@@ -28,7 +28,8 @@ def documented():
 
 def spec(h):
     """the property's statement: 10 coin halved by integer division every 1,050,000 blocks"""
-    return (10 * 100_000_000) // (2 ** (h // 1_050_000))
+    e = h // 1_050_000
+    return 0 if e >= 64 else (10 * 100_000_000) // (2 ** e)      # 10^9 < 2^30: zero from era 30 on
 
 
 def in_range(v):
@@ -94,9 +95,20 @@ def run(ctx):
     hs |= {rng.randrange(0, 2 ** 32) for _ in range(5000)} | {rng.randrange(0, 2 ** 70) for _ in range(500)}
     hs = sorted(hs)
     ops = ["subsidy %d" % h for h in hs]
-    impl = [str(get_block_subsidy(h)) for h in hs]
-    for h in hs:
+    vals = [get_block_subsidy(h) for h in hs]
+    impl = [str(v) for v in vals]
+    reported = 0
+    for k, h in enumerate(hs):
         res.case(("h", h), nontrivial=True)
+        # (M) the property on every height sent to the model as well (era boundaries up to 2^32 and beyond)
+        if vals[k] != spec(h) and reported < 3:
+            reported += 1
+            res.violations.append({"kind": "subsidy differs from 10 coin >> (h // 1,050,000)", "height": h,
+                                   "got": vals[k], "expected": spec(h)})
+        if k > 0 and vals[k] > vals[k - 1] and reported < 6:
+            reported += 1
+            res.violations.append({"kind": "subsidy increases with height", "height": h, "got": vals[k],
+                                   "lower_height": hs[k - 1], "there": vals[k - 1]})
     res.count("heights_vs_model", len(hs))
     model = ctx.driver.ask(ops)
     kit.compare(res, ops, impl, model)
